@@ -5,7 +5,7 @@ sys.path.insert(0, os.path.dirname(os.path.dirname(os.path.abspath(__file__))))
 from harness import fingerprint
 for pid in sys.argv[1:]:
     mod = importlib.import_module("harness." + pid.lower())
-    m = getattr(mod, "MIRRORS", None)
+    m = fingerprint.mirrors_for(pid.upper(), mod)
     if not m:
         print(pid, "no MIRRORS"); continue
     fingerprint.update(pid.upper(), m)
